@@ -204,6 +204,12 @@ def run(ctx, widen=False):
             # that is an expression but not a literal (`~7`, `--7`, `1 if 1 else 2`) differs by design
             cases.append({"prog": "`" + q + "`E,", "inputs": [], "compare": False})
             cases.append({"prog": "`" + q + "`E", "inputs": [], "compare": False})
+    # (f) printing a list that never ends: the run is cut off after 4 s, and whatever reached the host's stdout by then is judged
+    # (the separators / items of an infinite list go through LazyList.output, item by item)
+    inf_src = ["Þp", "ÞF", "Þ!", "Þo", "Þc", "⁽›1Ḟ", "Þ∞", "Þp⁽dM", "Þ∞2ẇ"]
+    inf_print = [(",", ""), ("", ""), ("…", "P"), ("¨,", ""), ("₴", ""), (":,", "")]
+    inf_cases = [{"prog": a + pr, "inputs": [], "flags": fl, "compare": False} for a in inf_src for pr, fl in inf_print]
+    cases += inf_cases if thorough else rng.sample(inf_cases, 10) + [{"prog": "Þp,", "inputs": [], "compare": False}]
     ctx.bump("cases", len(cases))
     # run in batches in child processes
     B = 40
